@@ -169,6 +169,11 @@ def check_timers(rec, run, keepalive, idle, obs, until_ns):
                     if when - last == idle * 1000 * MS:
                         fired = when
                         obs['idle_timeouts_checked'] += 1
+                    elif when - last < idle * 1000 * MS:
+                        wire_terms = [m for (m, _e, _n) in run.wire(side)[0] if m['type'] == 'SESS_TERM']
+                        if wire_terms and wire_terms[0]['reason'] == 1 and not (wire_terms[0]['flags'] & tw.TERM_REPLY):
+                            problems.append('%s terminated with reason idle-timeout only %.3f s after the last traffic (octets %s), its idle time is %d s' % (
+                                side, (when - last) / 1e9, 'received' if rxs and max(r for r in rxs if r <= when) == last else 'sent', idle))
                 last = when
             else:
                 if not in_term and end - last > idle * 1000 * MS:
@@ -194,7 +199,7 @@ def run_timing(params, obs):
         cfg_b['segment_size_mru'] = params['mru_b']
     if params.get('via_file'):
         cfg_a['via_file'] = cfg_b['via_file'] = True
-    run = PairRun(seed=params.get('seed', 0), policy='eager', cfg_a=cfg_a, cfg_b=cfg_b)
+    run = PairRun(seed=params.get('seed', 0), policy='eager', cfg_a=cfg_a, cfg_b=cfg_b, capacity=params.get('capacity'))
     if params.get('latency_ms'):
         # one-way delay: an acknowledgement or KEEPALIVE then arrives at an instant at which the receiver sends nothing itself
         run.sim.deliver_latency_ns = params['latency_ms'] * MS
@@ -442,6 +447,12 @@ def run_case(case):
         obs['from_file_runs'] = obs.get('from_file_runs', 0) + 1
         long_dur = min(max(dur, 2 * max(ka_a, ka_b) + 3), 200)
         note(run_timing(dict(base, traffic=[], duration_s=long_dur, via_file=True), obs), 'timing', dict(base, traffic='none', via_file=True))
+        if idle and (not keepalive or keepalive >= idle):
+            # one large segment trickling in over a slow narrow link for longer than the idle time: octets keep arriving, that is traffic
+            obs['trickle_runs'] = obs.get('trickle_runs', 0) + 1
+            ticks_needed = 2 * idle + 2
+            trickle = dict(base, traffic=[(200, 'B', 400 * ticks_needed)], duration_s=min(3 * idle + 8, 60), latency_ms=500, capacity=400, seg=400 * ticks_needed)
+            note(run_timing(trickle, obs), 'timing', dict(base, traffic='B trickles one segment of %d octets at 400 octets per 0.5 s' % (400 * ticks_needed)))
         if idle:
             # asymmetric idle times
             note(run_timing(dict(base, idle_b=0, traffic=[(idle * 1000 - 1, 'B', 5)], duration_s=dur), obs), 'timing',
